@@ -56,7 +56,7 @@ type catchAnalysis struct {
 	viaValue        map[ssa.Instruction]string // dynamic calls that can dispatch into a node method
 	everSetMemo     map[*types.Var]bool
 	flags           []*types.Var
-	callbackSets    map[*types.Var]bool // flags a module-defined test callback (a wrapper stored into Test.Func) sets on the context it is given
+	callbackSets    map[*types.Var]bool                           // flags a module-defined test callback (a wrapper stored into Test.Func) sets on the context it is given
 	memo            map[*ssa.Function]map[int]map[*types.Var]bool // fn -> param idx -> flags dirty at exit (given clean entry)
 	busy            map[*ssa.Function]bool
 	summReady       bool
